@@ -191,14 +191,14 @@ edition = "%s"
     return cdir
 
 
-def cargo_json(cdir, sub=("check",), extra=(), env=None, timeout=3600, target=None, toolchain=None):
+def cargo_json(cdir, sub=("check",), extra=(), env=None, timeout=3600, target=None, toolchain=None, jobs=None):
     """Run cargo with JSON messages; returns (returncode, diagnostics, artifacts, stderr).
 
     Only compiler messages whose target lives inside `cdir` are returned."""
     cmd = ["cargo"]
     if toolchain:
         cmd.append("+" + toolchain)
-    cmd += list(sub) + ["--offline", "--message-format=json", "-j", str(NCPU)] + list(extra)
+    cmd += list(sub) + ["--offline", "--message-format=json", "-j", str(jobs or NCPU)] + list(extra)
     e = {"CARGO_TARGET_DIR": target or TARGET}
     if env:
         e.update(env)
